@@ -149,6 +149,17 @@ static void fail_(const char *sig, const char *fmt, ...)
 static const char *errname(int e)
 {
     static __thread char b[24];
+    switch (e) {
+    case 0: return "0";
+    case EAGAIN: return "EAGAIN";
+    case EPROTO: return "EPROTO";
+    case EPIPE: return "EPIPE";
+    case ECONNRESET: return "ECONNRESET";
+    case ECONNREFUSED: return "ECONNREFUSED";
+    case ETIMEDOUT: return "ETIMEDOUT";
+    case EINVAL: return "EINVAL";
+    default: break;
+    }
     snprintf(b, sizeof b, "errno%d", e);
     return b;
 }
@@ -197,6 +208,8 @@ static struct xcm_attr_map *sock_attrs_cred(struct thr *t, char cred)
 {
     struct xcm_attr_map *m = xcm_attr_map_create();
     xcm_attr_map_add_bool(m, "xcm.blocking", false);
+    if (is_bs(t->tp))
+        xcm_attr_map_add_str(m, "xcm.service", "bytestream");
     if (is_tls(t->tp)) {
         char d[300], p[340];
         cred_dir(cred, d, sizeof d);
@@ -526,7 +539,7 @@ static int op_tls_failure_cert(struct thr *t)
     xcm_attr_map_add_bool(am, "xcm.blocking", false);
     struct xcm_socket *y = CALL("xcm_connect_a", xcm_connect_a(t->addr, m)), *z = NULL;
     xcm_attr_map_destroy(m);
-    int yfail = !y, zfail = 0, ok_rounds = 0;
+    int yfail = !y, zfail = 0, ok_rounds = 0, after = 0;
     for (int i = 0; i <= MAXSPIN && !(yfail && (zfail || !z)) ; i++) {
         if (!z && !zfail) {
             z = CALL("xcm_accept_a", xcm_accept_a(t->srv, am));
@@ -540,6 +553,8 @@ static int op_tls_failure_cert(struct thr *t)
             zfail = 1;
         if (yfail && zfail)
             break;
+        if ((yfail || zfail) && ++after > 2)
+            break;                     /* the other end may legitimately have nothing more to report */
         if (y && z && !yfail && !zfail && f1 == 0 && f2 == 0 && ++ok_rounds > 3)
             break;                     /* established: the refusal did not happen */
         /* once one end has failed, the other learns it from the closed connection */
